@@ -99,6 +99,26 @@ Theorem C01_gamma_large_form : forall d scale v, v * (d * scale) = scale * (d * 
 Proof. exact gamma_large_form. Qed.
 Print Assumptions C01_gamma_large_form.
 
+(* (e) why the boost G * U^(1/k), G ~ Gamma(k+1), gives Gamma(k) for shape k < 1: conditional cdf min(1,(y/t)^k);
+   the Gamma(k+1) kernel t^k e^-t integrated against its y-derivative k y^(k-1) t^-k over (y, M) is
+   k y^(k-1) (e^-y - e^-M), which tends to k times the Gamma(k) kernel (and Gamma(k+1) = k Gamma(k)).
+   Partial: the interchange of d/dy with the t-integral is not formalised. *)
+Theorem C01_gamma_boost_event : forall k t u y, 0 < k -> 0 < t -> 0 < u -> 0 < y ->
+  (t * Rpower u (1 / k) <= y <-> u <= Rpower (y / t) k).
+Proof. exact gamma_boost_event. Qed.
+Print Assumptions C01_gamma_boost_event.
+
+Theorem C01_gamma_boost_kernel : forall k y M, 0 < k -> 0 < y -> y < M ->
+  is_RInt (fun t => gamma_kernel (k + 1) t * (k * Rpower y (k - 1) * Rpower t (- k))) y M
+          (k * Rpower y (k - 1) * (exp (- y) - exp (- M))).
+Proof. exact gamma_boost_kernel. Qed.
+Print Assumptions C01_gamma_boost_kernel.
+
+Theorem C01_gamma_boost_kernel_limit : forall k y, 0 < k -> 0 < y ->
+  is_lim (fun M => k * Rpower y (k - 1) * (exp (- y) - exp (- M))) p_infty (k * gamma_kernel k y).
+Proof. exact gamma_boost_kernel_limit. Qed.
+Print Assumptions C01_gamma_boost_kernel_limit.
+
 Example C01_ex_mt :
   std_normal_pdf 1 * mt_accept 1 (1 / 3) 1
   = mt_K 1 (1 / 3) * gamma_kernel (1 + 1 / 3) (1 * mt_v (1 / 3) 1) * (3 * 1 * (1 / 3) * (1 + 1 / 3 * 1) ^ 2) /\
